@@ -201,17 +201,14 @@ example : next params Ex.full [137438953471, 137438953471, 137438953472] = (.err
 `Tr.machineID` is what `NewSnowflake` stores in the machineID field. For all inputs in the range the model states. -/
 section Translated
 open Fatchoy.Gen.C09
+set_option linter.unusedSimpArgs false
 
 /-- the translated id expression is the model's `assemble` (no bit is lost in the 64-bit word) -/
 theorem C09_tr_uuid (mid seq bc ts : BitVec 64)
     (hbc : bc.toNat ≤ params.maxBack) (hts : ts.toNat ≤ params.maxTime) (hmid : mid.toNat ≤ params.midMask) :
     (Tr.uuid mid seq bc ts).toNat = assemble params bc.toNat ts.toNat mid.toNat seq.toNat := by
   simp [params, maxBack, maxTime, midMask] at hbc hts hmid
-  have h1 : bc.toNat * 2305843009213693952 % 18446744073709551616 = bc.toNat * 2305843009213693952 :=
-    Nat.mod_eq_of_lt (by omega)
-  have h2 : ts.toNat * 16777216 % 18446744073709551616 = ts.toNat * 16777216 := Nat.mod_eq_of_lt (by omega)
-  have h3 : mid.toNat * 1024 % 18446744073709551616 = mid.toNat * 1024 := Nat.mod_eq_of_lt (by omega)
-  simp [Tr.uuid, assemble, params, shiftBc, shiftTs, shiftMid, Nat.shiftLeft_eq, h1, h2, h3]
+  simp (disch := omega) [Tr.uuid, assemble, params, shiftBc, shiftTs, shiftMid, Nat.shiftLeft_eq, Nat.mod_eq_of_lt] <;> ac_rfl
 
 /-- … and as the signed int64 Go returns it is the same non-negative number (the model's `Nat` ids are faithful) -/
 theorem C09_tr_uuid_int (mid seq bc ts : BitVec 64)
@@ -227,8 +224,8 @@ theorem C09_tr_uuid_int (mid seq bc ts : BitVec 64)
 
 /-- the translated machine-id expression of `NewSnowflake` is the model's masking, for every uint16 -/
 theorem C09_tr_machineID (m : BitVec 16) : (Tr.machineID m).toNat = (new params m.toNat 0).mid := by
-  have : m.toNat % 18446744073709551616 = m.toNat := Nat.mod_eq_of_lt (by have := m.isLt; omega)
-  simp [Tr.machineID, new, params, midMask, this]
+  have := m.isLt
+  simp (disch := omega) [Tr.machineID, new, params, midMask, Nat.mod_eq_of_lt] <;> ac_rfl
 
 /-- non-vacuity: the range hypotheses hold at the largest admitted values of all four inputs -/
 example : (Tr.uuid 16383#64 1023#64 3#64 137438953471#64).toInt =
